@@ -42,27 +42,34 @@ type Tier struct {
 
 // Job / Output mirror the worker's types (overlay/internal/zzsim/zzmain).
 type Job struct {
-	Prop     string  `json:"prop"`
-	Tier     string  `json:"tier"`
-	Mode     string  `json:"mode"`
-	Seed     uint64  `json:"seed"`
-	Worker   int     `json:"worker"`
-	Stride   int     `json:"stride"`
-	Count    int     `json:"count"`
-	Floor    bool    `json:"floor"`
-	Kind     string  `json:"kind"`
-	TmpDir   string  `json:"tmp"`
-	Out      string  `json:"out"`
-	BudgetS  float64 `json:"budget_s"`
-	Replay   []int32 `json:"replay,omitempty"`
-	Samples  int     `json:"samples"`
-	MaxViol  int     `json:"max_violations"`
-	ShrinkS  float64 `json:"shrink_s"`
-	Repeat   int     `json:"repeat"`
-	StepCap  int64   `json:"step_cap"`
-	FirstIdx int     `json:"first_index"`
-	OnlyCell int     `json:"only_cell"`
-	MaxProcs int     `json:"-"` // GOMAXPROCS of the worker process (0 = 2)
+	Prop     string   `json:"prop"`
+	Tier     string   `json:"tier"`
+	Mode     string   `json:"mode"`
+	Seed     uint64   `json:"seed"`
+	Worker   int      `json:"worker"`
+	Stride   int      `json:"stride"`
+	Count    int      `json:"count"`
+	Floor    bool     `json:"floor"`
+	Kind     string   `json:"kind"`
+	TmpDir   string   `json:"tmp"`
+	Out      string   `json:"out"`
+	BudgetS  float64  `json:"budget_s"`
+	Replay   []int32  `json:"replay,omitempty"`
+	Samples  int      `json:"samples"`
+	MaxViol  int      `json:"max_violations"`
+	ShrinkS  float64  `json:"shrink_s"`
+	Repeat   int      `json:"repeat"`
+	StepCap  int64    `json:"step_cap"`
+	FirstIdx int      `json:"first_index"`
+	OnlyCell int      `json:"only_cell"`
+	MaxProcs int      `json:"-"` // GOMAXPROCS of the worker process (0 = 2)
+	Known    []KnownJ `json:"known,omitempty"`
+}
+
+type KnownJ struct {
+	ID       string `json:"id"`
+	Check    string `json:"check"`
+	MsgRegex string `json:"msg_regex"`
 }
 
 type Failure struct {
@@ -105,6 +112,8 @@ type Output struct {
 	WallS       float64           `json:"wall_s"`
 	Aborted     int64             `json:"aborted_runs"`
 	Diverged    []string          `json:"diverged,omitempty"`
+	KnownHits   map[string]int64  `json:"known_hits,omitempty"`
+	KnownSample map[string]string `json:"known_sample,omitempty"`
 	ReplayFails []Failure         `json:"replay_failures,omitempty"`
 	ReplayTrace []string          `json:"replay_trace,omitempty"`
 }
@@ -134,6 +143,7 @@ type KnownFinding struct {
 	Check     string   `json:"check"`
 	TraceAll  []string `json:"trace_all,omitempty"`  // regexps; each must match some trace line
 	TraceNone []string `json:"trace_none,omitempty"` // regexps; none may match any trace line
+	MsgRegex  string   `json:"msg_regex,omitempty"`  // regexp over the failure message: lets the worker recognise the finding without shrinking it
 	What      string   `json:"what"`
 	Commit    string   `json:"commit,omitempty"`
 }
@@ -152,7 +162,19 @@ func loadKnown() []KnownFinding {
 }
 
 func (k *KnownFinding) matches(prop string, v *Violation) bool {
-	if k.Status != "open" || k.Property != prop || k.Check != v.Check {
+	if k.Status != "open" || k.Property != prop {
+		return false
+	}
+	inList := false
+	for _, c := range strings.Split(k.Check, "|") {
+		if c == v.Check {
+			inList = true
+		}
+	}
+	if !inList {
+		return false
+	}
+	if k.MsgRegex != "" && !regexp.MustCompile(k.MsgRegex).MatchString(v.Msg) {
 		return false
 	}
 	lines := append([]string{v.Msg}, v.Trace...)
@@ -302,6 +324,8 @@ type agg struct {
 	notes                                      []string
 	stopped                                    []string
 	wall                                       float64
+	knownHits                                  map[string]int64
+	knownSample                                map[string]string
 }
 
 func newAgg() *agg {
@@ -331,6 +355,16 @@ func (a *agg) add(o *Output) {
 	}
 	for k, v := range o.Probes {
 		a.probes[k] += v
+	}
+	for id, n := range o.KnownHits {
+		if a.knownHits == nil {
+			a.knownHits = map[string]int64{}
+			a.knownSample = map[string]string{}
+		}
+		a.knownHits[id] += n
+		if a.knownSample[id] == "" {
+			a.knownSample[id] = o.KnownSample[id]
+		}
 	}
 	a.violations = append(a.violations, o.Violations...)
 	for _, s := range o.Samples {
@@ -402,6 +436,12 @@ func runCheck(prop, tier, replayPath string) int {
 	}
 	nw := nWorkers()
 	a := newAgg()
+	var knownJobs []KnownJ
+	for _, k := range loadKnown() {
+		if k.Status == "open" && k.Property == prop && k.MsgRegex != "" {
+			knownJobs = append(knownJobs, KnownJ{ID: k.ID, Check: k.Check, MsgRegex: k.MsgRegex})
+		}
+	}
 	kinds := spec.Kinds
 	if len(kinds) == 0 {
 		kinds = []string{""}
@@ -442,7 +482,7 @@ func runCheck(prop, tier, replayPath string) int {
 			var jobs []Job
 			for w := 0; w < nw; w++ {
 				jobs = append(jobs, Job{Prop: prop, Tier: tier, Mode: "search", Seed: seed, Worker: w, Stride: nw, Count: bt.count, Floor: bt.floor,
-					Kind: kind, TmpDir: tmp, BudgetS: t.BudgetS, Samples: 1, MaxViol: 2, ShrinkS: 20, StepCap: t.StepCap})
+					Kind: kind, TmpDir: tmp, BudgetS: t.BudgetS, Samples: 1, MaxViol: 2, ShrinkS: 20, StepCap: t.StepCap, Known: knownJobs})
 				if bt.race {
 					jobs[len(jobs)-1].Seed = seed + 7777 // other seeds than the plain batch
 					jobs[len(jobs)-1].ShrinkS = 5
@@ -543,6 +583,9 @@ func runCheck(prop, tier, replayPath string) int {
 	sort.SliceStable(a.violations, func(i, j int) bool { return len(a.violations[i].Choices) < len(a.violations[j].Choices) })
 	exit := 0
 	knownHit := map[string]int{}
+	for id, n := range a.knownHits {
+		knownHit[id] += int(n)
+	}
 	seenCheck := map[string]int{}
 	var vioLines []string
 	for i := range a.violations {
